@@ -2,6 +2,7 @@ package props
 
 import (
 	"encoding/json"
+	"encoding/xml"
 	"fmt"
 	"net/url"
 	"strings"
@@ -622,6 +623,7 @@ func (p c13) xmlDocs(e *c13env) {
 	src := dp.GenTree(e.c.Rand, e.s, dp.DataOpts{PSet: 0.8, PKid: 0.9, MaxEntries: 2})
 	valid := dp.EncodeXML(e.s, e.s.Mod.Ident(), src, nil)
 	e.try("xml", "valid", valid, false, func() error { return upsertXML(e, valid) })
+	p.xmlShapes(e, src)
 	if len(valid) > 700 {
 		valid = valid[:700]
 	}
@@ -648,6 +650,63 @@ func (p c13) xmlDocs(e *c13env) {
 		"<m><t10>maybe</t10></m>", "<m><t0>999</t0></m>", "<m><t12>nope</t12></m>", "<m><t13>zz:zz</t13></m>", "<m><t11>9</t11></m>", "<m xmlns=\"urn:x\"><a xmlns=\"urn:y\"/></m>", strings.Repeat("<a>", 500), "<m>" + strings.Repeat("<a>", 200) + strings.Repeat("</a>", 200) + "</m>"} {
 		d := doc
 		e.try("xml", "catalog", d, false, func() error { return upsertXML(e, d) })
+	}
+}
+
+// xmlShapes: the mismatches the property names, as XML documents built along paths of the tree: text where a container is declared,
+// a list entry without its key.
+func (p c13) xmlShapes(e *c13env, src *dp.DNode) {
+	if e.s.AugName != "" {
+		return
+	}
+	esc := func(t string) string {
+		var b strings.Builder
+		xml.EscapeText(&b, []byte(t))
+		return b.String()
+	}
+	// wrap builds <m xmlns><step>..<step>INNER</step>..</step></m>; entries carry their key leaves
+	wrap := func(path dp.DPath, inner string, dropKeyOfLast bool) string {
+		open, close := "", ""
+		cur := src
+		for i, st := range path {
+			open += "<" + st.Name + ">"
+			close = "</" + st.Name + ">" + close
+			if st.Key != nil {
+				l := cur.Lists[st.Name]
+				en, _ := l.Find(st.Key)
+				if !(dropKeyOfLast && i == len(path)-1) {
+					for j, kn := range l.S.Keys {
+						open += "<" + kn + ">" + esc(st.Key[j]) + "</" + kn + ">"
+					}
+				}
+				cur = en
+			} else {
+				cur = cur.Kids[st.Name]
+			}
+		}
+		return fmt.Sprintf("<%s xmlns=\"%s\">%s%s%s</%s>", e.s.Mod.Ident(), e.s.NS, open, inner, close, e.s.Mod.Ident())
+	}
+	n := 0
+	for _, ap := range src.AllPaths() {
+		mn, l, _ := src.Resolve(ap)
+		if l != nil || !plainKeys(ap) || n >= 12 {
+			continue
+		}
+		n++
+		if ap[len(ap)-1].Key == nil {
+			doc := wrap(ap, "just text", false)
+			e.tryShape("xml-shape", "text-at-container", doc, func() error { return upsertXML(e, doc) })
+		} else if len(mn.S.Keys) > 0 {
+			inner := ""
+			for _, c := range mn.S.DataChildren() {
+				if c.Kind == dp.Leaf && !c.IsKey() && mn.Leaves[c.Name] != nil {
+					inner = "<" + c.Name + ">" + esc(mn.Leaves[c.Name].V[0]) + "</" + c.Name + ">"
+					break
+				}
+			}
+			doc := wrap(ap, inner, true)
+			e.tryShape("xml-shape", "entry-without-key", doc, func() error { return upsertXML(e, doc) })
+		}
 	}
 }
 
